@@ -23,6 +23,24 @@ func genDecoderSpec(r *RNG, target, class string) DecoderSpec {
 		d.WindowSize = r.Range(1, 16)
 	case "small":
 		d.WindowSize = r.Range(17, 300)
+	case "wide":
+		// volume stratum: windows of 64 KiB to 1 MiB (matches longer than
+		// 64 KiB, offsets beyond 64 KiB, MiBs through the buffer)
+		d.WindowSize = r.Pick(1<<16, 1<<16+1, 100_000, 1<<17, 1<<18, 300_001, 1<<20)
+		ws := d.WindowSize
+		switch r.Intn(5) {
+		case 0:
+			d.BufferSize = 0
+		case 1:
+			d.BufferSize = ws + 1 + r.Intn(ws)
+		case 2:
+			d.BufferSize = 2 * ws
+		case 3:
+			d.BufferSize = ws + 1 + r.Intn(1<<14)
+		default:
+			d.BufferSize = 2*ws + r.Intn(ws)
+		}
+		return d
 	default:
 		d.WindowSize = r.Range(301, 4000)
 	}
